@@ -488,7 +488,7 @@ struct BigInt {
             ++index;
         }
 
-        while (index_ > index) {
+        while (index_ >= index) {
             storage_[index_] = 0;
             --index_;
         }
